@@ -595,7 +595,7 @@ func (obj *Flavor) LoadForm() slip.Object {
 func (obj *Flavor) inheritedVar(k string, v slip.Object) bool {
 	for _, f := range obj.inherit {
 		if iv, has := f.defaultVars[k]; has {
-			return v == iv
+			return slip.ObjectEqual(v, iv)
 		}
 	}
 	return false
